@@ -419,6 +419,7 @@ var ruleHard = &Rule{
 			if sel == nil {
 				continue
 			}
+			helper := p.pairKind(fn.Signature) != "status"
 			npoll++
 			key := "poll arm of " + fnName(fn)
 			// the block taken when the Done case fires: select index == 0..n: find
@@ -460,6 +461,9 @@ var ruleHard = &Rule{
 			stOK := false
 			if k, ok := constInt(unspill(ret.Block(), ret, ret.Results[0])); ok && len(ret.Results) == 2 && k == constOf(p.A.StatusFailed) {
 				stOK = true
+			}
+			if helper && len(ret.Results) == 1 {
+				stOK = true // a poll helper returns the error alone; R-POLL checks that its callers return it with the failed status
 			}
 			if len(cls) == 1 && cls[0] == "Ctx" && stOK {
 				out.ok(key, p.pos(ret.Pos()), fnName(fn), "returns (failed, error wrapping ErrExecution and ctx.Err())")
